@@ -6,7 +6,7 @@ cd "$(dirname "$0")/.."
 if ls spec/*.java >/dev/null 2>&1; then
   javac -cp /opt/veriftools/tla/tla2tools.jar -d spec spec/*.java
 fi
-for m in Masa MasaTrace MC_Registry MC_Names MasaAbi MC_Oracle; do
+for m in Masa MasaTrace MC_Registry MC_Names MasaAbi MC_Oracle MasaRegistryInd; do
   (cd spec && tla-sany $m.tla >/dev/null) || { echo "SANY failed on $m"; exit 1; }
 done
 # the oracle validates itself (MC_Oracle: reference values, hand derivatives, exact solutions, jump conditions)
